@@ -265,6 +265,8 @@ def run(tier, seed, result):
             st = e1.explore('c03', params, result, max_depth=depth)
             closure = closure and st['closure']
             notes.append(f'{params}: {st}')
+    from . import c03_sched
+    notes.append(c03_sched.run(tier, seed, result))
     result.assumptions += [
         'engine.io, bidict trusted; transports are real engineio sockets '
         'with the network cut',
@@ -277,6 +279,8 @@ def run(tier, seed, result):
         rule='BFS over all histories of {connect, client/server disconnect, '
              'transport loss, enter, leave, close} to closure; a state is '
              'non-trivial/distinct by its canonical room table; every state '
-             'is probed with every emit(to, skip_sid, namespace) combination',
+             'is probed with every emit(to, skip_sid, namespace) combination; '
+             'E2: every interleaving of one AsyncServer emit with concurrent '
+             'membership changes, suspended at every transport write',
         explanation='; '.join(notes),
         exhaustive=closure)
